@@ -16,7 +16,7 @@ from ..roles import RoleSpec, solve_roles, blame_key, generic_neutral
 from .. import tables
 from .anchors import anchors
 from .common import mentions, guards_of, short, assigned_names, arg_of
-from .records import eval_sites, all_consumers, result_positions, EVAL
+from .records import eval_sites, all_consumers, result_positions, EVAL, rule_snapshots_are_copies, rule_mean_over_samples_run
 from .c02 import final_ctor
 from .c04 import rule_exits_select
 
@@ -270,8 +270,7 @@ def _def_text(cfg, name_node):
 
 
 # ------------------------------------------------------------------------------------ tuple coherence
-def rule_tuple_coherence(eng, rep, A):
-    rule = "C03-4.result-components-travel-together"
+def rule_tuple_coherence(eng, rep, A, rule="C03-4.result-components-travel-together"):
     sp = eng.fn("model.Model.save_point")
     gf = eng.fn("model.Model.get_final_results")
     selfn = sp.posparams[0]
@@ -511,3 +510,12 @@ def run(eng, rep):
     rule_tuple_coherence(eng, rep, A)
     rule_objective_construction(eng, rep, A)
     rule_exits_select(eng, rep, rule="C03-7.all-exits-go-through-final-selection")
+    vfg = eng.vfg
+    ci, b = final_ctor(eng, A)
+    sinks = [("f", "Model", f) for f in ("xsave", "rsave", "jacsave", "jacsave_eval_nums")]
+    for pn in ("xmin", "rmin"):
+        e = b.params.get(pn)
+        if e is not None and not isinstance(e, tuple):
+            sinks.append(vfg.key_of(e))
+    rule_snapshots_are_copies(eng, rep, "C03-8.saved-and-returned-records-are-copies", sinks, "the saved-point slot / soln.x / soln.resid")
+    rule_mean_over_samples_run(eng, rep, "C03-9.means-are-taken-over-the-samples-actually-run")
